@@ -5,6 +5,7 @@ import (
 	"fmt"
 	"io"
 	"io/fs"
+	"math"
 	"os"
 	"sort"
 	"strings"
@@ -707,7 +708,7 @@ func (s *Session) execHandle(c Call, res *Res) {
 	case "close":
 		setErr(f.Close())
 	case "freaddir":
-		des, err := f.ReadDir(c.N)
+		des, err := f.ReadDir(countOf(c.N))
 		setErr(err)
 
 		for _, de := range des {
@@ -717,7 +718,7 @@ func (s *Session) execHandle(c Call, res *Res) {
 		sort.Strings(res.Names)
 		res.N = len(des)
 	case "freaddirnames":
-		ns, err := f.Readdirnames(c.N)
+		ns, err := f.Readdirnames(countOf(c.N))
 		setErr(err)
 
 		for _, n := range ns {
@@ -818,4 +819,13 @@ func (s *Session) setUser(uid, gid int) error {
 	}
 
 	return s.FS.SetUser(u)
+}
+
+// countOf maps the specification's stand-in for "the largest int" (TLC integers are 32 bits wide).
+func countOf(n int) int {
+	if n >= 1000000 {
+		return math.MaxInt
+	}
+
+	return n
 }
